@@ -237,9 +237,10 @@ fn main() {
 		"a leaf source (in-memory or container fixture of any format) under a chain of 1-3 filters: filter_zoom with min/max in 0..=40 incl. min > max and open ends, filter_bbox with geographic boxes derived from the source's coverage in tile space (on tile edges, cutting through tiles, degenerate points, containing / disjoint) or arbitrary; oracle: lookup(c) and streams over generated boxes return the source's stored bytes exactly when c is in every zoom range and definitely inside every bbox by the independent Mercator reference (tiles on the 1e-6 guard band are don't-care), nothing otherwise; second phase: invalid arguments (non-numeric, u8 overflow, negative, list for scalar, arity != 4, west > east, south > north, out of +-180/+-90, missing) must make operation_from_vpl return Err (not Ok, not panic), valid controls must build; non-trivial = chain that removes some but not all tiles of the source",
 	);
 	vt::engine::watchdog(3600);
+	vt::sources::MBTILES_THINNING.store(25, std::sync::atomic::Ordering::Relaxed);
 	let reg: Vec<Case> = check.regression_cases("filters");
 	check.enumerate("regressions", reg, false, oracle);
-	check.phase("filters", check.cases(5000, 150_000), strategy, oracle);
-	check.phase("arguments", check.cases(6000, 200_000), bad_strategy, bad_oracle);
+	check.phase("filters", check.cases(250_000, 4_000_000), strategy, oracle);
+	check.phase("arguments", check.cases(40_000, 600_000), bad_strategy, bad_oracle);
 	check.finish();
 }
